@@ -22,7 +22,10 @@ N_empty == <<>>
 T_a == <<"a">>
 T_ab == <<"a","b">>
 Node(n, t) == [name |-> n, tag |-> t]
+T_none == <<>>         \* a node listed in node{} itself: it came without a subscription and has no tag
 Pools == { <<Node(N_hk1, T_a), Node(N_hk2, T_ab), Node(N_sg, T_a)>>,
+           <<Node(N_hk1, T_none), Node(N_sg, T_a)>>,                          \* one node without a subscription
+           <<Node(N_hk2, T_none)>>,                                           \* only such nodes
            <<Node(N_hk1, T_a), Node(N_hk1, T_ab), Node(N_empty, T_a)>>,       \* duplicate names, empty name
            <<Node(N_sg, T_ab)>>,
            <<>> }
@@ -35,7 +38,7 @@ Alt(key, val) == [key |-> key, val |-> val]
 NameAlts == { Alt("", Str(N_hk1)), Alt("", Str(N_sg)), Alt("", Str(N_empty)), Alt("keyword", Str(<<"h","k">>)), Alt("keyword", Str(<<"1">>)),
               Alt("regex", RE(TRUE, FALSE, <<<<"h","k">>>>)), Alt("regex", RE(FALSE, TRUE, <<<<"1">>, <<"g">>>>)),
               Alt("regex", BadRe), Alt("badkey", Str(N_hk1)) }
-TagAlts == { Alt("", Str(T_a)), Alt("", Str(T_ab)), Alt("regex", RE(TRUE, TRUE, <<T_a>>)), Alt("regex", RE(FALSE, FALSE, <<<<"b">>>>)),
+TagAlts == { Alt("", Str(T_a)), Alt("", Str(T_ab)), Alt("", Str(T_none)), Alt("regex", RE(TRUE, TRUE, <<T_a>>)), Alt("regex", RE(FALSE, FALSE, <<<<"b">>>>)),
              Alt("keyword", Str(T_a)) }      \* keyword is not a key of subtag(): invalid
 AltSeqs(A) == {<<a>> : a \in A} \cup {<<a, b>> : a \in A, b \in A}
 Cond(input, not, alts) == [input |-> input, not |-> not, alts |-> alts]
